@@ -85,9 +85,19 @@ class World:
     def table(self):
         return K.sym_table(self.tname, self.t - self.f, self.table_cols)
 
+    stage = "hydraulics"
+
     def contracts(self):
         def c_component_array(ev, args, kwargs):
-            return args[0].items["_pit"]["components"][args[1]]
+            # contract of get_component_array (unit component_array): rows aligned with the ACTIVE pit block of the table
+            # only for only_active=True and the mode of the stage; any other request yields an array about which
+            # nothing is known (its rows belong to other elements)
+            ctype = kwargs.get("component_type", args[2] if len(args) > 2 else "branch")
+            mode = kwargs.get("mode", args[3] if len(args) > 3 else "hydraulics")
+            only_active = kwargs.get("only_active", args[4] if len(args) > 4 else True)
+            if only_active is True and mode == self.stage and ctype == "branch" and args[1] == self.tname:
+                return args[0].items["_pit"]["components"][args[1]]
+            return K.sym_pit("component_array_not_aligned_with_the_active_block", z3.Int("n_unaligned"), self.ncomp)
         return {CT + ":get_component_array": c_component_array}
 
     def req(self):
@@ -448,22 +458,121 @@ def compressor_lift(ctx):
 PMP = CM + "pump_component"
 
 
-@unit("C03", "pump/volume_flow", functions=[PMP + ":Pump.adaption_before_derivatives_hydraulic"], engine="E2")
+class _TypeAt:
+    """the std-type object of the pump in row k (an element of itemgetter(*names)(net.std_types['pump']))"""
+
+    def __init__(self, type_id, curve):
+        self.type_id, self.curve = type_id, curve
+
+    def getattr_(self, ev, attr, lineno):
+        if attr != "get_pressure":
+            raise Unsupported("pump std type attribute %s" % attr)
+        tid, curve = self.type_id, self.curve
+
+        class _M:
+            def call(self, ev, args, kwargs, lineno):
+                return curve(V.I(tid), V.R(val_of(args[0])))
+        return _M()
+
+
+class _Fcts:
+    is_tuple = True
+
+    def __init__(self, names, curve):
+        self.names, self.curve, self.n = names, curve, names.n
+
+    def elem(self, j):
+        return _TypeAt(self.names.f(j), self.curve)
+
+
+def _pump_world(ctx, gas):
+    """symbolic run of Pump.adaption_before_derivatives_hydraulic; returns (paths, world, curve, names, comp)"""
+    cref = comp_class("pump_component", "Pump")
+    STD = class_const(cref, "STD_TYPE")
+    w = World(cref, "pump", class_const(cref, "internal_cols"), gas=gas)
+    curve = z3.Function("pump_curve", z3.IntSort(), z3.RealSort(), z3.RealSort())
+    NT = z3.Int("NTYPES")
+    names = K.sym_arr("std_type_names", NT, "i")
+
+    class _IG:
+        def call(self, ev, args, kwargs, lineno):
+            if len(args) != 1 or not isinstance(args[0], E.StarArr):
+                raise Unsupported("itemgetter with these arguments")
+            arr_ = args[0].arr
+
+            class _G:
+                def call(self, ev, a2, k2, ln2):
+                    return _Fcts(arr_, curve)
+            return _G()
+    cs = w.contracts()
+    cs[CT + ":get_std_type_lookup"] = lambda ev, a, k: names
+    spec_build = w.spec.build
+
+    def build():
+        args, kw = spec_build()
+        net = args[1]
+        net.items["std_types"] = {"pump": "pump-type-library"}
+        return args, kw
+    paths = T.run_paths(ctx, PMP + ":Pump.adaption_before_derivatives_hydraulic", build, contracts=cs,
+                        hooks={"global": lambda m, n: _IG() if n == "itemgetter" else None})
+    w.spec.build()
+    return paths, w, curve, names, STD
+
+
+def _pump_unit(ctx, gas):
+    ctx.assume("A1", "A3", "A4", "A6")
+    paths, w, curve, names, STD = _pump_world(ctx, gas)
+    tag = "gas" if gas else "liquid"
+    main = [p for p in paths if p.exc is None]
+    ctx.decided("%s/returns" % tag, "cover", len(main) >= 1 and len(main) == len(paths), witness=str([str(p.exc) for p in paths]))
+    if not main:
+        return
+    bp0, np0 = w.spec.objs["branch_pit"], w.spec.objs["node_pit"]
+    comp = w.comp_array()
+    fluid = w.fluid
+    k = z3.Int("k")
+    i = k - w.f
+    N_PAMB, N_PINIT_, N_TIN = K.const(ND, "PAMB"), K.const(ND, "PINIT"), K.const(ND, "TINIT")
+    fn = V.I(bp0.f(k, B_FROM_NODE))
+    m, area = V.R(bp0.f(k, B_MDOTINIT)), V.R(bp0.f(k, B_AREA))
+    rho_n = fluid.ufs["density"](z3.RealVal(str(SP.T_N)))
+    v_mps = V.R(SP.div(SP.div(m, area), rho_n))
+    if gas:
+        p_from = V.R(SP.add(np0.f(fn, N_PAMB), np0.f(fn, N_PINIT_)))
+        t_from = V.R(np0.f(fn, N_TIN))            # the INLET (from-node) temperature
+        nf = V.R(SP.div(SP.mul(SP.mul(SP.P_N, t_from), fluid.ufs["compressibility"](p_from)), SP.mul(p_from, SP.T_N)))
+        vol = V.R(SP.mul(SP.mul(v_mps, nf), area))
+    else:
+        vol = V.R(SP.mul(v_mps, area))
+    tid = V.I(names.f(V.I(comp.f(i, STD))))
+    NT = z3.Int("NTYPES")
+    req = w.req() + [k >= w.f, k < w.t, V.I(comp.f(i, STD)) >= 0, V.I(comp.f(i, STD)) < NT, area > 0, rho_n > 0,
+                     V.R(SP.add(np0.f(fn, N_PAMB), np0.f(fn, N_PINIT_))) > 0]
+    written = [p for p in main if p.args[0][2].f is not bp0.f]
+    ctx.decided("%s/lift-written-when-the-block-is-not-empty" % tag, "cover", len(written) >= 1, witness="%d paths" % len(main))
+    g = []
+    for p in main:
+        bp = p.args[0][2]
+        g.append(z3.Implies(z3.And(p.cond(), w.t - w.f >= 1), K.eq_val(bp.f(k, B_PL), curve(tid, vol))))
+    ctx.ob("%s/lift-is-the-curve-of-the-row's-own-type-at-the-inlet-volume-flow" % tag, "ensures",
+           req + T.all_facts(main), z3.And(*g))
+
+
+@unit("C03", "pump/lift/liquid", functions=[PMP + ":Pump.adaption_before_derivatives_hydraulic"], engine="E2")
+def pump_lift_liquid(ctx):
+    _pump_unit(ctx, False)
+
+
+@unit("C03", "pump/lift/gas", functions=[PMP + ":Pump.adaption_before_derivatives_hydraulic"], engine="E2")
+def pump_lift_gas(ctx):
+    _pump_unit(ctx, True)
+
+
+@unit("C03", "pump/volume_flow", engine="E2")
 def pump_volume_flow(ctx):
-    """the pump evaluates its curve at  v_from * area ; the result tables report  vdot = m / rho_mean
-    (liquids) -- the two must be the same quantity"""
-    ctx.assume("A1", "A4", "A6")
-    f = S.get_function(PMP + ":Pump.adaption_before_derivatives_hydraulic")
-    ctx.use_function(f)
-    src = ast.unparse(f.node)
-    uses_curve = "x.get_pressure(y)" in src and "fcts, vol" in src
-    ctx.decided("lift-from-curve-at-vol", "ensures", uses_curve,
-                witness="PL is not computed as std_type.get_pressure(vol)")
-    writes_pl = "pump_branch_pit[:, PL] = pl" in src
-    ctx.decided("PL-column-written", "ensures", writes_pl, witness="PL not stored")
-    # the volume flow expression for liquids:  MDOTINIT / AREA / rho(T_N) * AREA
-    want = "v_mps = pump_branch_pit[:, MDOTINIT] / pump_branch_pit[:, AREA] / fluid.get_density(NORMAL_TEMPERATURE)"
-    ctx.decided("volume-flow-expression-located", "cover", want in src, witness="expression changed: re-derive")
+    """spec level: the pump evaluates its curve at  m / rho(T_N)  (proved above); the result tables report
+    vdot = m / rho_mean(T) for liquids -- the two must be the same quantity (finding F24)"""
+    ctx.assume("A1")
     m, A, T_in, T_out = z3.Reals("mdot area t_in t_out")
     rho = z3.Function("fluid_density", z3.RealSort(), z3.RealSort())
     vol_pump = m / A / rho(z3.RealVal(SP.T_N)) * A
